@@ -66,7 +66,8 @@ def op_strategy():
                                    "dz": st.just(0.0), "zgiven": st.just(False)}))}),
         st.sampled_from(["absolute", "relative"]).map(lambda m: {"op": "set_distance_mode", "mode": m}),
         st.sampled_from(["absolute", "relative"]).map(lambda m: {"op": "set_extrusion_mode", "mode": m}),
-        st.floats(min_value=-20, max_value=20).map(lambda e: {"op": "set_axis_E", "E": e}),
+        st.one_of(st.just(0.0), st.just(0.0), st.floats(min_value=-20, max_value=20)).map(
+            lambda e: {"op": "set_axis_E", "E": e}),
         st.sampled_from(["probe1", "probe2", "rewrite", "extrude", "extrude"]).map(
             lambda h: {"op": "add_hook", "hook": h}),
         st.sampled_from(["probe1", "probe2", "rewrite", "extrude"]).map(
